@@ -201,6 +201,8 @@ def run_property(pid, tier, seed, repo='/repo', only_deductive=False, timeout=No
             if not isinstance(case, dict):
                 (label, struct, *cargs) = case
                 case = dict(label=label, struct=struct, key=cf['key'], contracts={cf['key']: cmod.contract_for(*cargs)})
+            if os.environ.get('VF_ONLY_CASE') and os.environ['VF_ONLY_CASE'] not in case['label']:
+                continue     # development aid: run one case only (never set by the registered commands)
             relpath, qual = case['key'].split('::')
             ctx.add_contracts(case['contracts'])
             try:
